@@ -32,6 +32,7 @@ use crate::StrongholdStorage;
 #[cfg_attr(feature = "send-sync-storage", async_trait)]
 impl JwkStorage for StrongholdStorage {
   async fn generate(&self, key_type: KeyType, alg: JwsAlgorithm) -> KeyStorageResult<JwkGenOutput> {
+    self.ensure_unlocked().await?;
     let stronghold = self.get_stronghold().await;
 
     let client = get_client(&stronghold)?;
@@ -94,6 +95,7 @@ impl JwkStorage for StrongholdStorage {
   }
 
   async fn insert(&self, jwk: Jwk) -> KeyStorageResult<KeyId> {
+    self.ensure_unlocked().await?;
     let key_type = StrongholdKeyType::try_from(&jwk)?;
     if !jwk.is_private() {
       return Err(
@@ -152,6 +154,7 @@ impl JwkStorage for StrongholdStorage {
   }
 
   async fn sign(&self, key_id: &KeyId, data: &[u8], public_key: &Jwk) -> KeyStorageResult<Vec<u8>> {
+    self.ensure_unlocked().await?;
     // Extract the required alg from the given public key
     let alg = public_key
       .alg()
@@ -233,6 +236,7 @@ impl JwkStorage for StrongholdStorage {
   }
 
   async fn delete(&self, key_id: &KeyId) -> KeyStorageResult<()> {
+    self.ensure_unlocked().await?;
     let stronghold = self.get_stronghold().await;
     let client = get_client(&stronghold)?;
     // `delete_secret` also reports success for a record that does not exist.
@@ -267,6 +271,7 @@ impl JwkStorage for StrongholdStorage {
   }
 
   async fn exists(&self, key_id: &KeyId) -> KeyStorageResult<bool> {
+    self.ensure_unlocked().await?;
     let stronghold = self.get_stronghold().await;
     let client = get_client(&stronghold)?;
     let location = Location::generic(
